@@ -62,8 +62,15 @@ func decodeBackInto(b []byte, text bool, dirtyIdx int) (*ref.Frame, error) {
 		if err := q.UnmarshalText([]byte(base64.StdEncoding.EncodeToString(b))); err != nil {
 			return nil, fmt.Errorf("UnmarshalText: %v", err)
 		}
-	} else if err := q.UnmarshalBinary(append([]byte{}, b...)); err != nil {
-		return nil, fmt.Errorf("UnmarshalBinary: %v", err)
+	} else {
+		buf := append([]byte{}, b...)
+		if err := q.UnmarshalBinary(buf); err != nil {
+			return nil, fmt.Errorf("UnmarshalBinary: %v", err)
+		}
+		// the caller's receive buffer is reused for the next frame: the decoded frame must not change with it
+		for i := range buf {
+			buf[i] = ^buf[i]
+		}
 	}
 	if m, ok := q.MACPayload.(*lorawan.MACPayload); ok {
 		if err := q.DecodeFOptsToMACCommands(); err != nil {
@@ -110,14 +117,16 @@ func checkFrame(c frameCase) evid.Outcome {
 	} else if f.MType != ref.MTProprietary {
 		nt = true
 	}
-	for _, asCmds := range []bool{true, false} {
-		p, err := gen.ToLib(f, asCmds)
+	for variant := 0; variant < 3; variant++ {
+		asCmds := variant != 1
+		// variant 2: absent FOpts / FRMPayload given as empty non-nil slices (the same frame value)
+		p, err := gen.ToLibOpt(f, asCmds, variant == 2)
 		if err != nil {
 			return evid.Outcome{Skip: true}
 		}
 		b, err := p.MarshalBinary()
 		if err != nil {
-			return evid.Fail("MarshalBinary refuses a spec-valid frame (commands as values: %v): %v; frame bytes per spec: %x", asCmds, err, want)
+			return evid.Fail("MarshalBinary refuses a spec-valid frame (commands as values: %v, empty lists as non-nil empty slices: %v): %v; frame bytes per spec: %x", asCmds, variant == 2, err, want)
 		}
 		if !bytes.Equal(b, want) {
 			return evid.Fail("MarshalBinary (commands as values: %v) gives %x, wire model gives %x", asCmds, b, want)
